@@ -10,6 +10,7 @@ import (
 	"os"
 
 	"github.com/corazawaf/coraza/v3/internal/environment"
+	"github.com/corazawaf/coraza/v3/internal/verifhook"
 	"github.com/corazawaf/coraza/v3/types"
 )
 
@@ -36,6 +37,9 @@ func (br *BodyBuffer) WriteTo(w io.Writer) (int64, error) {
 
 	b := make([]byte, br.length)
 
+	if err := verifhook.Fault("bodybuffer.read"); err != nil {
+		return 0, err
+	}
 	n, err := br.writer.Read(b)
 	if err != nil {
 		return 0, err
@@ -75,15 +79,24 @@ func (br *BodyBuffer) Write(data []byte) (n int, err error) {
 			return 0, errors.New("memoryLimit reached while writing")
 		} else {
 			if br.writer == nil {
+				if err = verifhook.Fault("bodybuffer.createtemp"); err != nil {
+					return 0, err
+				}
 				br.writer, err = os.CreateTemp(br.options.TmpPath, "body*")
 				if err != nil {
 					return 0, err
 				}
 				// we dump the previous buffer
+				if err = verifhook.Fault("bodybuffer.spillwrite"); err != nil {
+					return 0, err
+				}
 				if _, err := br.writer.Write(br.buffer.Bytes()); err != nil {
 					return 0, err
 				}
 				br.buffer.Reset()
+			}
+			if err = verifhook.Fault("bodybuffer.write"); err != nil {
+				return 0, err
 			}
 			br.length = targetLen
 			return br.writer.Write(data)
@@ -121,6 +134,9 @@ func (b *bodyBufferReader) Read(p []byte) (n int, err error) {
 		return an, nil
 	}
 
+	if err = verifhook.Fault("bodybuffer.readat"); err != nil {
+		return 0, err
+	}
 	n, err = b.br.writer.ReadAt(p, int64(b.pos))
 	b.pos += n
 	return
@@ -165,7 +181,9 @@ func (br *BodyBuffer) Reset() error {
 		// The temporary file is removed even if closing it fails: it must not
 		// outlive the transaction.
 		err := w.Close()
+		err = verifhook.FaultOr("bodybuffer.close", err)
 		rerr := os.Remove(w.Name())
+		rerr = verifhook.FaultOr("bodybuffer.remove", rerr)
 		return errors.Join(err, rerr)
 	}
 
